@@ -73,7 +73,10 @@ public:
         {
           _dequeuedSignal.reset();
           if (_queue.push(job))
+          {
+            _dequeuedSignal.set(); // do not swallow the wake-up of another producer waiting for a free slot
             break;
+          }
           _dequeuedSignal.wait();
         }
         _enqueuedSignal.set();
@@ -89,7 +92,10 @@ public:
       {
         _dequeuedSignal.reset();
         if (_queue.push(job))
+        {
+          _dequeuedSignal.set(); // do not swallow the wake-up of another producer waiting for a free slot
           break;
+        }
         _dequeuedSignal.wait();
       }
       _enqueuedSignal.set();
@@ -177,7 +183,10 @@ public:
           {
             enqueuedSignal.reset();
             if (queue.pop(job))
+            {
+              enqueuedSignal.set(); // the reset may have erased the wake-up another waiting worker needs for a further job
               break;
+            }
             enqueuedSignal.wait();
           }
           dequeuedSignal.set();
